@@ -150,6 +150,16 @@ type multiErr []string
 
 func (e multiErr) Error() string { return strings.Join(e, " ") }
 
+// nilPtrErr: its nil pointer is a perfectly good (non-nil) error value.
+type nilPtrErr struct{ what string }
+
+func (e *nilPtrErr) Error() string {
+	if e == nil {
+		return "callback stub: injected failure (a nil pointer inside a non-nil error)"
+	}
+	return e.what
+}
+
 type stubErr struct{ what string }
 
 func (e *stubErr) Error() string { return e.what + ": injected failure (custom type)" }
@@ -390,7 +400,11 @@ type simCallback struct {
 func newSimCallback(plan CbPlan, yield bool) *simCallback {
 	// the callback's error: exact sentinels included (a walk must hand back whatever it gets)
 	var err error
-	switch (plan.FailAt + plan.ErrVariant) % 5 {
+	switch (plan.FailAt + plan.ErrVariant) % 6 {
+	case 5:
+		// a non-nil error value that holds a nil pointer: still an error, to be handed back as it is
+		var np *nilPtrErr
+		err = np
 	case 1:
 		err = io.EOF
 	case 2:
